@@ -19,14 +19,14 @@ _cache = {}
 LOWER_COMBINATORS = False
 
 
-def leaves(ctx, name, lower=None):
+def leaves(ctx, name, lower=None, unroll=False):
     """Path leaves of a function (cached).  lower=True: closures handed to Option/Result combinators are
     traversed as the code they are (paths.LOWERABLE) -- used by rules that ask what a function *does*."""
     lower = LOWER_COMBINATORS if lower is None else lower
-    key = (id(ctx.facts), name, lower)
+    key = (id(ctx.facts), name, lower, unroll)
     if key not in _cache:
         fn = ctx.facts.fn(name)
-        _cache[key] = (fn, PathEnum(fn, ctx.facts, lower=lower).run())
+        _cache[key] = (fn, PathEnum(fn, ctx.facts, lower=lower, unroll=unroll, max_paths=200000 if unroll else 20000).run())
     ctx.touched(name)
     return _cache[key]
 
@@ -111,6 +111,14 @@ def cl_zero_truth(lf):
         if is_cl_zero(t):
             tv = truth(c)
             v = tv if t[1] == "Eq" else (None if tv is None else not tv)
+        else:
+            # `match content_length { 0 => .., n => .. }`: a switch on the value itself
+            x = look(t)
+            if is_call(x, "common::headers::Headers::content_length") and pending_req(x):
+                if c == ("eq", 0):
+                    v = True
+                elif c[0] == "ne" and 0 in c[1]:
+                    v = False
     return v
 
 
